@@ -59,9 +59,9 @@ def evalSock (p : Pending) (glob : Oracle) (obsToks : List String) : String :=
   let js (op : ApiOp) : ApiOp := match op with
     | .json doc c => .json ((ora.json.find? (·.1 == doc)).map (·.2) |>.getD MISS) c
     | o => o
-  let app : App := { onHp := ps.app.onHp.map js, onRr := ps.app.onRr.map js, onRcf := ps.app.onRcf.map js,
-                     onBw := ps.app.onBw.map js, onDc := ps.app.onDc.map js }
-  let sc : Scenario := { app := app, events := ps.events.map fun e => match e with | .api o => .api (js o) | e => e }
+  let script : Script := { onHp := ps.app.onHp.map js, onRr := ps.app.onRr.map js, onRcf := ps.app.onRcf.map js,
+                           onBw := ps.app.onBw.map js, onDc := ps.app.onDc.map js }
+  let sc : Scenario := { app := script.app, events := ps.events.map fun e => match e with | .api o => .api (js o) | e => e }
   let env := ora.env
   let mlog := (Scenario.run env sc).log
   let crashed := obsToks.contains "crash"
